@@ -1,17 +1,17 @@
 package props
 
 import (
-	"sync/atomic"
-	"sync"
-	"runtime"
 	"bytes"
 	"context"
 	"encoding/json"
 	"fmt"
 	"os"
 	"os/exec"
+	"runtime"
 	"sort"
 	"strings"
+	"sync"
+	"sync/atomic"
 	"testing"
 	"time"
 
